@@ -143,6 +143,23 @@ def check_program(corpus, mod_ast, prog, sc, rng, V=3, features=None):
             o2 = check_program(corpus, mod_ast, prog, sc, rng, V, features)
             o2.stats["maxm_raised_to"] = sc.maxm
             return o2
+        # the encoding gives up (rows pile up beyond its multiplicity bound).  Last resort: a few random databases
+        # on the real build against the reference model; a reproduced problem there is reported as a violation,
+        # otherwise the job stays inconclusive
+        if sc.kind in ("run", "rerun", "idem") and getattr(sc, "A", None) is not None:
+            for _i in range(6):
+                dbA = sc.A.random_db(rng, density=rng.choice([0.3, 0.5, 0.7]))
+                lines = sc.script_lines(prog, dbA, None, [])
+                rec = replay(corpus, prog, sc, lines, dbA, None, "duplicate")
+                if rec["problems"]:
+                    rec["query"] = "random database after the encoding's multiplicity bound overflowed"
+                    out.cex = {"query": rec["query"], "kind": rec["problems"][0][0], "inputs": {k: [rust_repr(t) for t in v] for k, v in dbA.items()},
+                               "pushed": None, "deadline_checks": []}
+                    out.replay = rec
+                    out.cexes.append((out.cex, rec))
+                    out.status = "violation"
+                    out.detail = "multiplicity bound of the encoding overflowed; on the real build: " + "; ".join(t for _, t in rec["problems"][:3])
+                    return out
         out.status, out.detail = "inconclusive", "row multiplicity exceeds the encoding bound MAXM=%d" % sc.maxm
         return out
     out.stats.update(manager_stats())
@@ -175,6 +192,20 @@ def check_program(corpus, mod_ast, prog, sc, rng, V=3, features=None):
                 o2 = check_program(corpus, mod_ast, prog, sc, rng, V, features)
                 o2.stats["maxm_raised_to"] = sc.maxm
                 return o2
+            # the bound of the encoding is exhausted: the database that overflows it is replayed on the real build;
+            # if the real program misbehaves there (rows piling up), that is a reproduced violation
+            dbA, dbB, ks = sc.concrete_dbs(model)
+            lines = sc.script_lines(prog, dbA, dbB, ks)
+            rec = replay(corpus, prog, sc, lines, dbA, dbB, "duplicate")
+            rec["query"] = q.name
+            if rec["problems"]:
+                cex = {"query": q.name, "kind": rec["problems"][0][0], "inputs": {k: [rust_repr(t) for t in v] for k, v in dbA.items()},
+                       "pushed": ({k: [rust_repr(t) for t in v] for k, v in dbB.items()} if dbB else None), "deadline_checks": ks}
+                out.cexes.append((cex, rec))
+                out.cex, out.replay = cex, rec
+                out.status = "violation"
+                out.detail = "found where the multiplicity bound of the encoding overflows: " + "; ".join(t for _, t in rec["problems"][:3])
+                return out
             out.status, out.detail = "inconclusive", "row multiplicity exceeds the encoding bound MAXM=%d" % sc.maxm
             return out
         # counterexample: replay against the real build
